@@ -124,7 +124,7 @@ func runC48(c *Ctx) {
 			}
 		}
 	}
-	c.check(nTrail >= 2, "C48.trailing", "trailing data rejected", f, fmt.Sprintf("%d decodes reject leftover bytes", nTrail), fmt.Sprintf("only %d of the outer/inner decodes reject trailing bytes (expected the response and the basic response)", nTrail))
+	c.check(nTrail == len(um) && nTrail >= 2, "C48.trailing", "trailing data rejected", f, fmt.Sprintf("all %d DER decodes reject leftover bytes", nTrail), fmt.Sprintf("only %d of the %d DER decodes reject trailing bytes", nTrail, len(um)))
 	// counts
 	for _, fld := range []string{"Responses", "Certificates"} {
 		var lens []ssa.Value
